@@ -139,6 +139,7 @@ class Engine:
         self.stats = Stats()
         self.invs = {}
         self.sqrts = {}
+        self.sqrt_rad = {}
         self.marks = {}
         self.events = []
         self.choices = []     # (label, value) of engine-level choices on this path
@@ -333,7 +334,30 @@ class Engine:
             return hit
         d = self._branch(a)
         self._remember(a, d)
+        self._link_sqrt(a, d)
         return d
+
+    def _link_sqrt(self, a, d):
+        """facts over the reals that the linearisation cannot see: for r = sqrt(p):  r == 0  <=>  p == 0.  Whenever one side is
+        decided on a path the other side is added to the path condition (DeadPath if that contradicts it)."""
+        if a.op not in ('==', '!=') or not self.sqrts or getattr(self, '_linking', False):
+            return
+        zero = d if a.op == '==' else (not d)
+        p = a.p
+        self._linking = True
+        try:
+            if len(p) == 1:
+                (m, c), = p.items()
+                if len(m) == 1 and m[0][1] == 1 and m[0][0] in self.sqrt_rad:
+                    self.assume(Atom(self.sqrt_rad[m[0][0]], '==' if zero else '!='))
+                    return
+            for key in (tuple(sorted(p.items())), tuple(sorted(pneg(p).items()))):
+                r = self.sqrts.get(key)
+                if r is not None:
+                    self.assume(Atom(r.t, '==' if zero else '!='))
+                    return
+        finally:
+            self._linking = False
 
     def _branch(self, a):
         if self.depth < len(self.prefix):
@@ -454,8 +478,16 @@ class Engine:
                 self.assume(Atom(pneg(s.t), '<='), tag='sqrt_arg>=0')
             r = self.sym(f'sqrt{len(VARS)}', 'real', 'aux')
             self.sqrts[key] = r
+            (rm, _), = r.t.items()
+            self.sqrt_rad[rm[0][0]] = s.t
             self.assume(Atom(pneg(r.t), '<='), tag='sqrt>=0')
             self.assume(Atom(psub(pmul(r.t, r.t), s.t), '=='), tag='sqrt')
+            # r == 0 <=> radicand == 0 (invisible to the linearisation): inherit what the path already knows about the radicand
+            kz = self.known(Atom(s.t, '=='))
+            if kz is True:
+                self.assume(Atom(r.t, '=='))
+            elif kz is False:
+                self.assume(Atom(r.t, '!='))
         return r
 
     def abstract(self, s, name='let'):
